@@ -10,6 +10,7 @@ pub mod c20;
 pub mod c21;
 pub mod c22;
 pub mod c23;
+pub mod c27;
 pub mod c28;
 
 pub fn registry() -> Vec<CheckDef> {
@@ -25,6 +26,7 @@ pub fn registry() -> Vec<CheckDef> {
     v.push(c21::def());
     v.push(c22::def());
     v.push(c23::def());
+    v.push(c27::def());
     v.push(c28::def());
     v
 }
